@@ -200,9 +200,12 @@ macro_rules! impl_bop {
                 let a = if ulps_eq!(*self.u(), 1.0) && ulps_eq!(*rhs.u(), 1.0) {
                     (self.base_rate + rhs.base_rate) / 2.0
                 } else {
-                    (self.base_rate * rhs.u() + rhs.base_rate * self.u()
-                        - (self.base_rate + rhs.base_rate) * uu)
-                        / (kappa - uu)
+                    // (a_a u_b + a_b u_a - (a_a + a_b) u_a u_b) / (u_a + u_b - 2 u_a u_b)
+                    // evaluated without cancellation for nearly vacuous operands
+                    let ca = 1.0 - self.u();
+                    let cb = 1.0 - rhs.u();
+                    (self.base_rate * rhs.u() * ca + rhs.base_rate * self.u() * cb)
+                        / (rhs.u() * ca + self.u() * cb)
                 };
                 Self::try_new(b, d, u, a)
             }
